@@ -195,3 +195,29 @@ def farm_params(lp_denom, reward, start=None, end=None, ident=None):
     return mk('mantra_dex_std::farm_manager::FarmParams', lp_denom=lp_denom, start_epoch=NONE() if start is None else Some(start),
               preliminary_end_epoch=NONE() if end is None else Some(end), curve=NONE(), farm_asset=reward,
               farm_identifier=NONE() if ident is None else Some(ident))
+
+
+# ---------------------------------------------------------------- native replay of farm-manager states
+
+def fm_state_steps(I_or_none, positions=(), farms=(), weights=(), last_claimed=(), now_s=None, mints=()):
+    """replay steps that inject a farm-manager pre-state (all values concrete)"""
+    from .pm import rj, coin_j
+    steps = []
+    if now_s is not None:
+        steps.append({'op': 'set_time', 'nanos': str(now_s * NS)})
+    for (ident, denom, amount, dur, receiver, exp) in positions:
+        steps.append({'op': 'set_position', 'position': {'identifier': ident, 'lp_asset': coin_j(denom, amount), 'unlocking_duration': dur,
+                                                        'open': exp is None, 'expiring_at': exp, 'receiver': '@' + receiver}})
+    for (ident, owner, lp, rd, funded, claimed, rate, start, end) in farms:
+        steps.append({'op': 'set_farm', 'farm': {'identifier': ident, 'owner': '@' + owner, 'lp_denom': rj(lp), 'farm_asset': coin_j(rd, funded),
+                                                'claimed_amount': str(claimed), 'emission_rate': str(rate), 'curve': 'linear',
+                                                'start_epoch': start, 'preliminary_end_epoch': end}})
+    for (addr, denom, epoch, w) in weights:
+        steps.append({'op': 'set_weight', 'addr': addr, 'denom': rj(denom), 'epoch': str(epoch), 'weight': str(w)})
+    for (addr, epoch) in last_claimed:
+        steps.append({'op': 'set_last_claimed', 'addr': addr, 'epoch': str(epoch)})
+    for (to, coins) in mints:
+        cs = [coin_j(d, a) for d, a in coins if int(a) > 0]
+        if cs:
+            steps.append({'op': 'mint', 'to': to, 'funds': cs})
+    return steps
